@@ -42,6 +42,8 @@ impl DiffItem for Vec<VectorDiff<Elem>> {
 pub struct Msg {
     pub diffs: Vec<DiffD>,
     pub state_after: Vec<V>,
+    /// published by a commit
+    pub commit: bool,
 }
 
 pub struct WorldShared {
@@ -49,6 +51,8 @@ pub struct WorldShared {
     pub contents: Vec<V>,
     /// Every state the vector had between top-level operations, in order (index 0 = initial).
     pub boundaries: Vec<Vec<V>>,
+    /// Indices into `boundaries` of the states produced by a commit that changed the contents.
+    pub commit_bidx: Vec<usize>,
     pub dropped: bool,
     pub capacity: usize,
     pub auditor_on: bool,
@@ -342,10 +346,28 @@ impl TapState {
 
     fn on_stage_item(&mut self, diffs: &[VectorDiff<Elem>], env: &Env, cs: &ConsumerShared) {
         let stage = self.index as i32;
-        for d in diffs {
+        for (i, d) in diffs.iter().enumerate() {
             if let Err(e) = checked_apply(&mut self.replica, d) {
-                let ps = self.sp();
-                cs.violate(env, &ps, "inapplicable_diff", stage, format!("{e} (diff {:?})", to_diffd(d)));
+                let mut ps = self.sp();
+                let mut detail = format!("{e} (diff {:?})", to_diffd(d));
+                // C15: `VectorDiff::apply` ignores a pop from an empty vector, so a consumer that
+                // rebuilds the view with it goes on; does the bound break right behind the
+                // useless pop ("room is made before an item enters" made no room)?
+                if let Some(m) = self.max_len {
+                    let mut scratch = self.replica.clone();
+                    for d2 in &diffs[i..] {
+                        let pop_on_empty = scratch.is_empty() && matches!(d2, VectorDiff::PopBack | VectorDiff::PopFront);
+                        if !pop_on_empty && checked_apply(&mut scratch, d2).is_err() {
+                            break;
+                        }
+                        if scratch.len() > m {
+                            ps.push("C15");
+                            detail.push_str(&format!("; and applied with VectorDiff::apply the view then has {} items after {:?}, fixed limit is {m}", scratch.len(), to_diffd(d2)));
+                            break;
+                        }
+                    }
+                }
+                cs.violate(env, &ps, "inapplicable_diff", stage, detail);
                 return;
             }
             if let Some(m) = self.max_len {
@@ -384,8 +406,15 @@ impl TapState {
                     w.contents,
                     raw.saw_reset
                 );
+                // C07: was a committed transaction among what this subscriber never got?
+                let lost_commit = (self.batched && w.commit_bidx.iter().any(|&j| j > raw.bidx))
+                    || (w.auditor_on && w.msgs[raw.cursor.min(w.msgs.len())..].iter().any(|m| m.commit));
                 drop(w);
-                cs.violate(env, &["C08"], "ended_on_stale_state", 0, detail);
+                if lost_commit {
+                    cs.violate(env, &["C08", "C07"], "ended_on_stale_state", 0, format!("{detail}; a committed transaction is among the updates never delivered"));
+                } else {
+                    cs.violate(env, &["C08"], "ended_on_stale_state", 0, detail);
+                }
             }
         } else if let Some(prev) = &self.prev {
             if !prev.borrow().ended {
